@@ -297,7 +297,12 @@ func slice(fr *frame, x, lo, hi, max value) value {
 			p := fr.i.p
 			c := p.ctx
 			w := kindWidth(s.k)
-			oob := c.Or(c.BVCmp("bvslt", s.t, c.BVC64(w, 0)), c.BVCmp("bvsgt", s.t, c.BVC64(w, uint64(lim))))
+			oob := c.False()
+			if intBacked(s) {
+				oob = c.Or(c.Lt(s.t, c.IntC64(0)), c.Gt(s.t, c.IntC64(lim)))
+			} else {
+				oob = c.Or(c.BVCmp("bvslt", s.t, c.BVC64(w, 0)), c.BVCmp("bvsgt", s.t, c.BVC64(w, uint64(lim))))
+			}
 			if p.fork(oob, "slice bound") {
 				p.targetPanic(fr, "slice bounds out of range ["+what+" symbolic] with capacity "+fmt.Sprint(lim))
 			}
@@ -1035,6 +1040,18 @@ func callBuiltin(caller *frame, callpos token.Pos, fn *ssa.Builtin, args []value
 		if _, ok := src.(string); ok {
 			params := fn.Type().(*types.Signature).Params()
 			src = conv(caller, params.At(0).Type(), params.At(1).Type(), src)
+		}
+		if isAbsBytes(src) {
+			// abstract byte strings are given a concrete length (case split) before copying
+			var flat []value
+			for _, part := range absParts(src) {
+				if ab, ok := part.(*absBytes); ok {
+					flat = append(flat, caller.i.p.materialize(caller, ab)...)
+				} else {
+					flat = append(flat, part.([]value)...)
+				}
+			}
+			src = flat
 		}
 		return copy(args[0].([]value), src.([]value))
 
